@@ -30,6 +30,12 @@ pub struct JmLock { pub dummy: u8 }
 pub struct JmLockResult { pub dummy: u8 }
 pub struct JmWriteGuard { pub dummy: u8 }
 impl JmLock { #[verifier::external_body] pub fn write(&self) -> (r: JmLockResult) { unimplemented!() } }
+// RwLock::read on the journal MANAGER lock: a shared guard on the queue of sealed journals; it does not touch the
+// journal (writer) mutex, so the ghost world -- in particular w.journal.locked -- is unchanged
+pub struct JmReadLockResult { pub dummy: u8 }
+pub struct JmReadGuard { pub dummy: u8 }
+impl JmLock { #[verifier::external_body] pub fn read(&self) -> (r: JmReadLockResult) { unimplemented!() } }
+impl JmReadLockResult { #[verifier::external_body] pub fn expect(self, msg: &str) -> (r: JmReadGuard) { unimplemented!() } }
 impl JmLockResult { #[verifier::external_body] pub fn expect(self, msg: &str) -> (r: JmWriteGuard) { unimplemented!() } }
 impl JmWriteGuard {
     #[verifier::external_body]
